@@ -10,8 +10,8 @@ ID = "C19"
 LEVEL = "exploration"
 TECHNIQUE = "complete enumeration of the 4 binding-presence combinations (one fresh interpreter each) x every module import x every command class x every device-string/mode/initiator call of the three factories, file opens observed by a sys.addaudithook recorder and connections by the stand-in Context"
 RULE = ("4 presence combinations of (sgio, iscsi), each in its own subprocess: import of every module under pyscsi; construction + CDB encode/decode "
-        "of each of the 42 command classes; the facade over a plain recording object; init_device / SCSIDevice / ISCSIDevice x 20 device strings "
-        "(existing node, directories, absent node, two well-formed iSCSI URLs, near-miss prefixes in both families, empty, relative, upper-case) x "
+        "of each of the 42 command classes; the facade over a plain recording object; init_device / SCSIDevice / ISCSIDevice x 25 device strings "
+        "(existing node, directories, absent node, seven well-formed iSCSI URLs incl. user%password@ credentials, IPv6 portal and mixed case, near-miss prefixes in both families, empty, relative, upper-case) x "
         "read-only/read-write x explicit/default initiator name. Non-trivial = at least one binding missing or a device string that is not the "
         "plain existing node; distinct = distinct (combination, kind, case).")
 ASSUMPTIONS = [
